@@ -96,14 +96,16 @@ def maxFrames : Nat := 12
 
 /-- reads frames like `readAll` of the harness.  `stops` = wire offsets after which an accepted frame ends the run. -/
 def readAll (total : Nat) (stops : List Nat) (bounds : Option (List Nat)) (hdrRanges : List (Nat × Nat))
-    (cont : List Nat) : Nat → Rd → List String → List String
+    (cont : List Nat) (seg : Bool := false) : Nat → Rd → List String → List String
   | 0, _, acc => acc.reverse
   | fuel + 1, rd, acc =>
     let pos := total - rd.inp.length
     let r := readFrame envGo rd
     let used := rd.inp.length - r.rd.inp.length
     let consumed := total - r.rd.inp.length
-    if hdrRanges.any (fun (a, b) => pos != a && pos < b && consumed > a) then ("span" :: acc).reverse else
+    -- `~segwide`: this frame's window reaches past its block; read in pieces the real reader refuses it (see `segOp`)
+    let wideMark := if seg && stops.contains pos then ["~segwide"] else []
+    if hdrRanges.any (fun (a, b) => pos != a && pos < b && consumed > a) then ("span" :: acc).reverse ++ wideMark else
     let big := if r.allocs.any (· ≥ bigAlloc) then "!big" else ""
     -- a name outside the ToLower alphabet of this driver: the prediction is void (marker token)
     let acc := if r.names.all (fun nm => (lowerGo? nm).isSome) then acc else "?alphabet" :: acc
@@ -123,16 +125,17 @@ def readAll (total : Nat) (stops : List Nat) (bounds : Option (List Nat)) (hdrRa
         let recoverable := e == .zero || e == .invhdr || e == .toolong ||
           ((e == .unlower || e == .dup) && cont.contains pos)
         if !recoverable || big != "" || over != "" || stops.contains pos ||
-            (match bounds with | some bs => !bs.contains consumed | none => false) then (tok :: acc).reverse
-        else readAll total stops bounds hdrRanges cont fuel r.rd (tok :: acc)
+            (match bounds with | some bs => !bs.contains consumed | none => false) then
+          (tok :: acc).reverse ++ (if e == .invctl then [] else wideMark)
+        else readAll total stops bounds hdrRanges cont seg fuel r.rd (tok :: acc)
     | .ok f =>
       let l := (declaredLen rd.inp).getD 0
       let delta : Int := (used : Int) - ((8 + l : Nat) : Int)
       let tok := s!"{renderFrame f}@{delta}{big}"
-      if stops.contains pos then ("stop" :: tok :: acc).reverse
+      if stops.contains pos then ("stop" :: tok :: acc).reverse ++ wideMark
       else if (match bounds with | some bs => !bs.contains (total - r.rd.inp.length) | none => false) then
         ("desync" :: tok :: acc).reverse
-      else readAll total stops bounds hdrRanges cont fuel r.rd (tok :: acc)
+      else readAll total stops bounds hdrRanges cont seg fuel r.rd (tok :: acc)
 
 /-! ### op parsing -/
 
@@ -204,7 +207,7 @@ def runRt (frames : List Frame) : String :=
           | none => bs
         go rest (wire ++ bs) (s!"w:ok:{hexField shown}" :: acc)
   let (wire, ws) := go frames [] []
-  " ".intercalate ws ++ " / " ++ " ".intercalate (readAll wire.length [] none [] [] maxFrames { inp := wire } [])
+  " ".intercalate ws ++ " / " ++ " ".intercalate (readAll wire.length [] none [] [] false maxFrames { inp := wire } [])
 
 /-! wire items of `st` -/
 
@@ -303,9 +306,9 @@ def buildSt : List String → StAcc → Option StAcc
       buildSt rest { a with wire := wire ++ b, lastStart := wire.length, lastHdr := false }
     | _ => none
 
-def runSt (toks : List String) : Option String := do
+def runSt (toks : List String) (seg : Bool := false) : Option String := do
   let a ← buildSt toks {}
-  pure (" ".intercalate (readAll a.wire.length a.stops (some a.bounds) a.ranges a.cont maxFrames { inp := a.wire } []))
+  pure (" ".intercalate (readAll a.wire.length a.stops (some a.bounds) a.ranges a.cont seg maxFrames { inp := a.wire } []))
 
 /-! ### spec oracle -/
 
@@ -467,8 +470,15 @@ def refVerdict : List String → List String → Bool → Option String
         | none => refVerdict items toks afterErr
       | _ => none
 
-def run (op impl : String) : Ans :=
+/-- the harness also reads one op in three through segmenting readers (1 byte at a time; random cuts with empty reads
+    and data+EOF) and demands the same tokens; the model, a function of the byte LIST, is chunking-independent by
+    construction — except for the one modelled dependence on `bufio`'s read-ahead: a header frame accepted although its
+    declared length reaches past its block (`stop`) is refused when the extra bytes arrive later (`~segwide`). -/
+def segOp (op : String) : Bool := (op.toList.foldl (fun a c => a + c.toNat) 0) % 3 == 0
+
+def run' (op impl : String) : Ans :=
   let toks := op.splitOn " "
+  let seg := segOp op
   let implGuard := impl.startsWith "guard:" || impl == "bad-op"
   match toks with
   | "rt" :: fs =>
@@ -524,7 +534,7 @@ def run (op impl : String) : Ans :=
         tags := ["rt"] ++ (if exp.isSome then ["inq"] else ["outq"]) ++ (if nonAscii then ["nonascii"] else [])
           ++ (if lenChange then ["lenchange"] else []) ++ (if hasHdr then ["nt"] else []) }
   | "st" :: items =>
-    match runSt items with
+    match runSt items seg with
     | none => { model := "bad-op", verdict := "skip", tags := ["bad-op"] }
     | some model =>
       let blocksOk := !hasSub model "?alphabet"
@@ -550,5 +560,17 @@ def run (op impl : String) : Ans :=
           ++ (if implToks.contains "stop" then ["stop"] else []) ++ (if implToks.contains "desync" then ["desync"] else [])
           ++ afterErrTag }
   | _ => { model := "bad-op", verdict := "skip", tags := ["bad-op"] }
+
+def run (op impl : String) : Ans :=
+  let a := run' op impl
+  let model := a.model
+  -- chunking dependence is judged first, on the implementation's own line
+  let verdict :=
+    if a.verdict == "skip" then a.verdict
+    else if hasSub impl " ~seg:" then "FAIL:chunking-dependent"
+    else if hasSub impl "!frame" then "FAIL:frame-returned-with-error"
+    else if hasSub impl " ~segwide" ∧ !a.verdict.startsWith "FAIL" then "FAIL:wide-window-chunking"
+    else a.verdict
+  { a with model := model, verdict := verdict, tags := a.tags ++ (if segOp op then ["seg"] else []) }
 
 end BfeVerif.C39
